@@ -9,7 +9,7 @@ use full_moon::{
 use regex::Regex;
 
 lazy_static::lazy_static! {
-    static ref STRING_ESCAPE_REGEX: Regex = Regex::new(r"\\(u\{|.)([\da-fA-F]*)(\}?)").unwrap();
+    static ref STRING_ESCAPE_REGEX: Regex = Regex::new(r"\\(u\{|.)([0-9a-fA-F]*)(\}?)").unwrap();
 }
 
 enum ReasonWhy {
